@@ -306,6 +306,41 @@ def full_world(rng, wid, modroot="w", stats=None, full_annotations=False, spelli
     return W
 
 
+def c14_world(rng, wid, modroot="w", stats=None):
+    """a world whose excluded files (by path entry, by directory, _test.go in-package and external) carry annotations,
+    @ignore comments and violations that WOULD matter if they were read"""
+    W = full_world(rng, wid, modroot, stats=stats, full_annotations=True)
+    root = W.root
+    # an excluded-by-name file inside the declaring package
+    W.add_file("d", "zz_generated.go", [])
+    W.add("d", "zz_generated.go", Decl("GenT", ["type GenT struct{ F int }"], doc=["// @immutable", "// @constructor NewGenT"]))
+    W.add("d", "zz_generated.go", Decl("NewGenT", ["func NewGenT() *GenT { return &GenT{} }"]))
+    W.add("d", "zz_generated.go", Decl("GenMock", ["func GenMock() int { return 1 }"], doc=["// @testonly"]))
+    W.add("d", "zz_generated.go", Decl("GenInternal", ["func GenInternal() int { return 2 }"], doc=["// @packageonly nobody"]))
+    W.add("d", "zz_generated.go", Decl("GenWrites", ["func GenWrites(t *T) {", "\tt.F = 1 /*@%sg0:imm-assign*/" % wid, "\t_ = T{} /*@%sg1:ctor-lit*/" % wid, "}"]))
+    # a package in an excluded directory
+    W.add_pkg("gen")
+    W.add_file("gen", "g.go", ['"%s/d"' % root])
+    W.add("gen", "g.go", Decl("G", ["func G(t *d.T) {", "\tt.F = 9 /*@%sg2:imm-assign*/" % wid, "\t_ = d.T{} /*@%sg3:ctor-lit*/" % wid, "\t_ = d.Mock() /*@%sg4:tonl-func*/" % wid, "}"]))
+    W.add("gen", "g.go", Decl("GenLocal", ["type GenLocal struct{ V int }"], doc=["// @immutable"]))
+    # users of the excluded file's items, in ordinary files
+    W.add_file("u", "uses_gen.go", ['"%s/d"' % root])
+    W.add("u", "uses_gen.go", Decl("UsesGen", ["func UsesGen() {", "\tg := d.NewGenT()", "\tg.F = 3 /*@%sg5:imm-assign*/" % wid, "\t_ = d.GenT{} /*@%sg6:ctor-lit*/" % wid,
+                                               "\t_ = d.GenMock() /*@%sg7:tonl-func*/" % wid, "\t_ = d.GenInternal() /*@%sg8:pkgo-func*/" % wid, "}"]))
+    # an @ignore in an excluded file must not leak; an annotated type declared in an in-package test file
+    W.add_file("u", "u_extra_test.go", ['"%s/d"' % root])
+    W.add("u", "u_extra_test.go", Decl("TT", ["type TT struct{ F int }"], doc=["// @immutable"]))
+    W.add("u", "u_extra_test.go", Decl("useTT", ["func useTT(tt *TT, t *d.T) {", "\ttt.F = 1 /*@%sg9:imm-assign*/" % wid, "\tt.F = 2 /*@%sg10:imm-assign*/" % wid,
+                                                 "\t_ = d.Mock() /*@%sg11:tonl-func*/" % wid, "}"]))
+    # an external test package
+    W.add_pkg("uext", "u_test")
+    W.pkgs["uext"]["dir"] = "u"
+    W.add_file("uext", "u_ext_test.go", ['"%s/d"' % root])
+    W.add("uext", "u_ext_test.go", Decl("extUse", ["func extUse(t *d.T) {", "\tt.F = 4 /*@%sg12:imm-assign*/" % wid, "\t_ = d.T{} /*@%sg13:ctor-lit*/" % wid,
+                                                   "\t_ = d.Mock() /*@%sg14:tonl-func*/" % wid, "\t_ = d.Internal() /*@%sg15:pkgo-func*/" % wid, "}"]))
+    return W
+
+
 # ------------------------------------------------------------------------------------------------
 # rendering
 
@@ -318,6 +353,7 @@ def render(W, outdir, rng=None, layout=None, edit=None):
     layout = layout or {}
     sites, files = {}, []
     for d, pk in W.pkgs.items():
+        d = pk.get("dir", d)
         pdir = os.path.join(outdir, W.wid, d)
         os.makedirs(pdir, exist_ok=True)
         fmap = {fn: list(f["decls"]) for fn, f in pk["files"].items()}
@@ -350,6 +386,9 @@ def render(W, outdir, rng=None, layout=None, edit=None):
                     for _ in range(rng.randint(0, 3)):
                         lines.append(rng.choice(["", "// an ordinary comment", "// mentions @immutable mid-sentence", "/* a block comment */", ""]))
                     lines.append("")
+                if layout.get("unrelated_ignores") and rng is not None and rng.random() < 0.25 and not dec.doc:
+                    # an @ignore of an unknown code: creates a scoped marker without changing any verdict
+                    lines.append("// @ignore X9")
                 lines += dec.doc
                 for l in dec.lines:
                     lines.append(l)
